@@ -8,6 +8,9 @@ for name in sys.argv[1:]:
     t = subprocess.run([sys.executable, "/verif/tools/try_seed.py", os.path.join(d, "patch.diff"), prop],
                        stdout=subprocess.PIPE, stderr=subprocess.STDOUT, text=True)
     out = t.stdout
+    if "git" in out and "apply" in out and "CalledProcessError" in out:
+        print(name, "SKIPPED: the patch no longer applies to /repo HEAD (record kept)")
+        continue
     detected = "VIOLATION property=" + prop in out
     meta = json.load(open(os.path.join(d, "meta.json")))
     meta.setdefault("confirmed_by_lead", {})["check"] = {
